@@ -3,34 +3,38 @@
 
        def wrapper(ARGS):
            g = func(ARGS)
-           input_ = None
+           input_ = exc = None
            while True:
                self.enable_by_count()
                try:
-                   item = g.send(input_)          # await g.asend(input_)
+                   item = g.send(input_) if exc is None else g.throw(exc)    # await g.asend / g.athrow
                except StopIteration as e:         # StopAsyncIteration
                    return e.value                 # (async: bare return - there is no value)
                finally:
+                   exc = None
                    self.disable_by_count()
-               input_ = (yield item)
+               try:
+                   input_ = (yield item)
+               except BaseException as e:         # throw()/close(): forward to g      (since /repo 767d84e)
+                   exc = e
 
    The wrapper is itself a generator (async generator): CPython's protocol
    (Wrap/Protocol.v) is applied to *this* automaton to get the wrapped object.
    Hand model, tied to the source by correspondence only (harness/props/c03.py).
 
    The model has one switch, `fwd`: does the wrapper forward what is thrown at its `yield`
-   (throw()/close(), athrow()/aclose()) to the inner generator?  /repo today: no
-   (`repo_forwards` below).  fwd = true models the repair sketched in
-   Wrap/GenWrapRepaired.v; both variants are proved about, the correspondence check uses
-   the one `repo_forwards` names. *)
+   (throw()/close(), athrow()/aclose()) to the inner generator?  /repo since 767d84e: yes
+   (`repo_forwards` below); fwd = false is the wrapper /repo had before (the `try/except`
+   round the yield absent, `item = g.send(input_)` only).  Both variants are proved about,
+   the correspondence check uses the one `repo_forwards` names. *)
 From Coq Require Import List ZArith Bool Lia.
 From LP Require Import Wrap.Protocol.
 Import ListNotations.
 Open Scope Z_scope.
 
-(* THE ONE LINE that says which wrapper /repo contains (flip to true when throw/close
-   forwarding is applied to wrap_generator and wrap_async_generator) *)
-Definition repo_forwards : bool := false.
+(* THE ONE LINE that says which wrapper /repo contains (true since /repo 767d84e: throw/close
+   forwarding in wrap_generator and wrap_async_generator; false = the former wrapper) *)
+Definition repo_forwards : bool := true.
 
 (* where the wrapper's frame is: not started, or suspended at `input_ = (yield item)`
    holding the inner object g *)
